@@ -178,6 +178,13 @@ func gen(a hx.Args) {
 		{al("a", 3, 11, 3)},
 		{al("a", 3, 3, 2), al("a", 3, 8, 3)},
 		{},
+		// empty names (kfake's CreateACLs admits them): an empty DENY prefix dominates nothing, an empty ALLOW prefix counts
+		{al("a", 3, 4, 3), al("", 4, 4, 2)},
+		{al("a", 4, 4, 3), al("", 4, 2, 2)},
+		{al("", 4, 4, 3)},
+		{al("", 4, 4, 3), al("", 4, 4, 2)},
+		{al("", 3, 4, 3), al("", 3, 4, 2)},
+		{al("", 3, 4, 3), al("", 4, 4, 2), al("b", 3, 4, 2)},
 	} {
 		emitTab(true, admin, 2, uFull, es)
 	}
@@ -232,7 +239,7 @@ func gen(a hx.Args) {
 	// F. random larger sets
 	pp := []string{"User:a", "User:b", "User:*", "User:ANONYMOUS", "User:admin", "User:c"}
 	hh := []string{h1, h2, "*", "hostx"}
-	nn := []string{"*", "a", "ab", "abc", "b", "ba", "c", "kafka-cluster", "**", "a*", "abcd"}
+	nn := []string{"*", "a", "ab", "abc", "b", "ba", "c", "kafka-cluster", "**", "a*", "abcd", ""}
 	qn := []string{"a", "ab", "abc", "abcd", "b", "ba", "c", "*", "kafka-cluster", "a*", "zz"}
 	for i := 0; i < a.N(3000, 60000); i++ {
 		n := r.Intn(13)
@@ -248,7 +255,7 @@ func gen(a hx.Args) {
 				e.principal = hx.Pick(r, []string{"User:a", "User:a", "User:*"})
 				e.host = hx.Pick(r, []string{h1, "*", "*"})
 				e.op = hx.Pick(r, []int{focusOp, focusOp, 2})
-				e.name = hx.Pick(r, []string{"*", "a", "ab", "abc", "abcd", "b"})
+				e.name = hx.Pick(r, []string{"*", "a", "ab", "abc", "abcd", "b", "a", "ab", "abc", "abcd", "b", "*", ""})
 			}
 			if r.Chance(8) {
 				e.rt = hx.Pick(r, []int{2, 3, 4, 5})
